@@ -120,3 +120,14 @@ Proof.
   - replace ((y - mu) / b - 0) with ((y - mu) * / b) by (unfold Rdiv; ring).
     rewrite Rabs_mult, (Rabs_pos_eq (/ b)) by (left; apply Rinv_0_lt_compat; exact Hb). field. lra.
 Qed.
+
+(* The constant as the repaired code evaluates it: a sum of logarithms instead of the logarithm of a product
+   (equal over the reals; in binary64 the product of a hundred variances leaves the range, the sum does not). *)
+Lemma ln_prodR l : Forall (fun a => 0 < a) l -> ln (prodR l) = sumR (map ln l).
+Proof.
+  intros H. rewrite <- (exp_sum_ln l H). apply ln_exp.
+Qed.
+
+Lemma normal_const_sum_of_logs v : Forall (fun a => 0 < a) v ->
+  normal_const v = / 2 * (sumR (map ln v) + INR (length v) * ln (2 * PI)).
+Proof. intros H. unfold normal_const. rewrite (ln_prodR v H). reflexivity. Qed.
